@@ -9,6 +9,15 @@ import unyt
 from unyt import unyt_array, unyt_quantity
 
 TEMPLATES = core.TEMPLATES
+_seen = {}
+for _i, _t in enumerate(TEMPLATES):
+    _k = (_t.func, _t.tid)
+    if _k in _seen:  # make template ids unique (needed for replay): suffix the later ones
+        _seen[_k] += 1
+        TEMPLATES[_i] = _t._replace(tid=_t.tid.replace("|", f"#{_seen[_k]}|", 1) if "|" in _t.tid else _t.tid + f"#{_seen[_k]}")
+    else:
+        _seen[_k] = 0
+assert len({(t.func, t.tid) for t in TEMPLATES}) == len(TEMPLATES)
 DTS = {"f": "float64", "i": "int64", "c": "complex128"}
 
 
